@@ -4,7 +4,7 @@
 
 use super::*;
 use crate::array::ArrayImpl;
-use crate::types::DataValue;
+use crate::types::{DataType, DataValue};
 
 /// Returns all rules of expression simplification.
 #[rustfmt::skip]
@@ -13,14 +13,14 @@ pub fn rules() -> Vec<Rewrite> { vec![
     // (and the other comparisons of an expression with itself), `null and x => null` and
     // `null or x => null` do not, and have been removed; so has `if (not c) a b => if c b a`
     // (a NULL condition selects the else branch on both sides).
-    rw!("add-zero";  "(+ ?a 0)" => "?a"),
+    rw!("add-zero";  "(+ ?a 0)" => "?a" if has_type_of("?a")),
     rw!("add-comm";  "(+ ?a ?b)" => "(+ ?b ?a)"),
     rw!("add-assoc"; "(+ ?a (+ ?b ?c))" => "(+ (+ ?a ?b) ?c)"),
-    rw!("add-same";  "(+ ?a ?a)" => "(* ?a 2)"),
+    rw!("add-same";  "(+ ?a ?a)" => "(* ?a 2)" if not_narrower_than_int("?a")),
     rw!("add-neg";   "(+ ?a (- ?b))" => "(- ?a ?b)"),
 
-    rw!("mul-one";   "(* ?a 1)" => "?a"),
-    rw!("mul-minus"; "(* ?a -1)" => "(- ?a)"),
+    rw!("mul-one";   "(* ?a 1)" => "?a" if has_type_of("?a")),
+    rw!("mul-minus"; "(* ?a -1)" => "(- ?a)" if has_type_of("?a")),
     rw!("mul-comm";  "(* ?a ?b)"        => "(* ?b ?a)"),
     rw!("mul-assoc"; "(* ?a (* ?b ?c))" => "(* (* ?a ?b) ?c)"),
 
@@ -30,15 +30,15 @@ pub fn rules() -> Vec<Rewrite> { vec![
     rw!("neg-neg";    "(- (- ?a))" => "?a"),
     rw!("neg-sub";    "(- (- ?a ?b))" => "(- ?b ?a)"),
 
-    rw!("sub-zero";   "(- ?a 0)" => "?a"),
-    rw!("zero-sub";   "(- 0 ?a)" => "(- ?a)"),
+    rw!("sub-zero";   "(- ?a 0)" => "?a" if has_type_of("?a")),
+    rw!("zero-sub";   "(- 0 ?a)" => "(- ?a)" if has_type_of("?a")),
 
-    rw!("div-cancel"; "(/ ?a ?a)" => "1" if is_not_zero("?a")),
+    rw!("div-cancel"; "(/ ?a ?a)" => "1" if is_not_zero("?a") if has_type_of_int_literal()),
 
     rw!("mul-add-distri";   "(* ?a (+ ?b ?c))" => "(+ (* ?a ?b) (* ?a ?c))"),
     rw!("mul-add-factor";   "(+ (* ?a ?b) (* ?a ?c))" => "(* ?a (+ ?b ?c))"),
 
-    rw!("recip-mul-div"; "(* ?x (/ 1 ?x))" => "1" if is_not_zero("?x")),
+    rw!("recip-mul-div"; "(* ?x (/ 1 ?x))" => "1" if is_not_zero("?x") if has_type_of_int_literal()),
 
     rw!("eq-comm";   "(=  ?a ?b)" => "(=  ?b ?a)"),
     rw!("ne-comm";   "(<> ?a ?b)" => "(<> ?b ?a)"),
@@ -172,6 +172,32 @@ pub fn union_constant(egraph: &mut EGraph, id: Id) {
         // prune other nodes
         egraph[id].nodes.retain(|n| n.is_leaf());
     }
+}
+
+/// Returns true unless the matched expression is known to have another type than `?a`: the
+/// literal of `x + 0`, `x * 1`, `0 - x` ... widens a SMALLINT `x` to INT, so `x` (or `-x`) alone
+/// is not the same expression.
+fn has_type_of(a: &str) -> impl Fn(&mut EGraph, Id, &Subst) -> bool {
+    let a = var(a);
+    move |egraph, id, subst| match (&egraph[id].data.type_, &egraph[subst[a]].data.type_) {
+        (Ok(t), Ok(ta)) => t == ta,
+        _ => true,
+    }
+}
+
+/// Returns true unless the matched expression is known to have another type than the literal `1`.
+fn has_type_of_int_literal() -> impl Fn(&mut EGraph, Id, &Subst) -> bool {
+    move |egraph, id, _| match &egraph[id].data.type_ {
+        Ok(t) => *t == DataType::Int32,
+        _ => true,
+    }
+}
+
+/// Returns true unless `?a` is known to be narrower than an INT literal (`x * 2` is an INT for a
+/// SMALLINT `x`, `x + x` is not).
+fn not_narrower_than_int(a: &str) -> impl Fn(&mut EGraph, Id, &Subst) -> bool {
+    let a = var(a);
+    move |egraph, _, subst| !matches!(&egraph[subst[a]].data.type_, Ok(DataType::Int16))
 }
 
 /// Returns true if the expression is a non-zero constant.
